@@ -170,6 +170,9 @@ Section SMap.
         | Gt => (k', x') :: zmap_insert k x r
         end
     end.
+  (* a std::map filled by insert() from a list of pairs *)
+  Definition smap_of_list (l : list (bytes * X)) : smap :=
+    fold_left (fun m kx => smap_insert (fst kx) (snd kx) m) l [].
 End SMap.
 Arguments smap : clear implicits.
 
@@ -263,9 +266,41 @@ Definition s_sv_invokers : bytes := [95; 105; 110; 118; 111; 107; 101; 114; 115]
 (* the system variables the property names *)
 Definition system_vars : list bytes := [s_sv_event; s_sv_sessionid; s_sv_name; s_sv_ioprocessors; s_sv_invokers].
 
-(* the guards of LuaDataModel::assign, as regenerated from the source *)
+(* boost::trim_copy (classic locale) *)
+Fixpoint drop_spaces (s : bytes) : bytes :=
+  match s with
+  | c :: r => if isspace c then drop_spaces r else s
+  | [] => []
+  end.
+Fixpoint trim_right (s : bytes) : bytes :=
+  match s with
+  | [] => []
+  | c :: r => match trim_right r with
+              | [] => if isspace c then [] else [c]
+              | r' => c :: r'
+              end
+  end.
+Definition trim (s : bytes) : bytes := trim_right (drop_spaces s).
+
+(* isalnum(c) || c == '_' *)
+Definition is_ident_char (c : N) : bool :=
+  ((48 <=? c) && (c <=? 57)) || ((65 <=? c) && (c <=? 90)) || ((97 <=? c) && (c <=? 122)) || (c =? 95).
+
+(* the repaired guard: [p] is a prefix of the trimmed location and is followed by the end or by a
+   character that cannot continue an identifier *)
+Definition prefix_guard (loc p : bytes) : bool :=
+  let l := trim loc in
+  is_prefix p l &&
+  match nth_byte l (length p) with
+  | None => true
+  | Some c => negb (is_ident_char c)
+  end.
+
+(* the guards of LuaDataModel::assign, as regenerated from the source: exact comparison with each
+   name (pinned) or the prefix test (repaired), per lua_guard_prefix *)
 Definition is_protected (loc : bytes) : bool :=
-  lua_guard_first && existsb (fun p => beq_bytes loc p) lua_protected.
+  lua_guard_first &&
+  existsb (fun p => if lua_guard_prefix then prefix_guard loc p else beq_bytes loc p) lua_protected.
 
 (* ------------------------------------------------------------------ abstract values (the property's class) *)
 Section LuaMarshal.
@@ -463,24 +498,32 @@ Section LuaMarshal.
   Definition set_if_nonempty (k : bytes) (s : bytes) (t : ltable) : ltable :=
     match s with [] => t | _ => tbl_set (KStr k) (LStr s) t end.
 
-  (* the table stored in the global _event *)
-  Definition set_event (vr : lm_variant) (g : store) (e : event) : mres ltable :=
+  (* `if (!d.empty())`; the repaired code also lets the empty VERBATIM string through *)
+  Definition data_absent (vr : lm_variant) (d : data) : bool :=
+    data_empty d &&
+    (lm_empty_atom_is_nil vr || match d_type d with VERBATIM => false | INTERPRETED => true end).
+
+  (* the members of _event other than data *)
+  Definition event_header (e : event) : ltable :=
     let t0 := tbl_set (KStr s_name) (LStr (ev_name e)) [] in
     let t1 := set_if_nonempty s_raw (ev_raw e) t0 in
     let t2 := set_if_nonempty s_origin (ev_origin e) t1 in
     let t3 := set_if_nonempty s_origintype (ev_origintype e) t2 in
     let t4 := set_if_nonempty s_invokeid (ev_invokeid e) t3 in
     let t5 := if ev_hide_sendid e then t4 else tbl_set (KStr s_sendid) (LStr (ev_sendid e)) t4 in
-    let t6 := match ev_type e with
-              | EvInternal => tbl_set (KStr s_type) (LStr s_internal) t5
-              | EvExternal => tbl_set (KStr s_type) (LStr s_external) t5
-              | EvPlatform => tbl_set (KStr s_type) (LStr s_platform) t5
-              | EvOtherType => t5
-              end in
+    match ev_type e with
+    | EvInternal => tbl_set (KStr s_type) (LStr s_internal) t5
+    | EvExternal => tbl_set (KStr s_type) (LStr s_external) t5
+    | EvPlatform => tbl_set (KStr s_type) (LStr s_platform) t5
+    | EvOtherType => t5
+    end.
+
+  (* the table stored in the global _event *)
+  Definition set_event (vr : lm_variant) (g : store) (e : event) : mres ltable :=
     let d := merge_event_data (ev_data e) (ev_params e) (ev_namelist e) in
-    if data_empty d then MOk t6
+    if data_absent vr d then MOk (event_header e)
     else match get_data_as_lua vr g d with
-         | MOk l => MOk (tbl_set (KStr s_data) l t6)
+         | MOk l => MOk (tbl_set (KStr s_data) l (event_header e))
          | MErr => MErr
          | MUndef => MUndef
          end.
@@ -535,11 +578,12 @@ Section LuaMarshal.
     | VArr l => Data [] INTERPRETED (map embed l) []
     | VMap kvs =>
         Data [] INTERPRETED []
-          ((fix emb (kvs : list (bytes * value)) : smap data :=
-              match kvs with
-              | [] => []
-              | (k, x) :: r => smap_set k (embed x) (emb r)
-              end) kvs)
+          (smap_of_list
+             ((fix emb (kvs : list (bytes * value)) : list (bytes * data) :=
+                 match kvs with
+                 | [] => []
+                 | (k, x) :: r => (k, embed x) :: emb r
+                 end) kvs))
     end.
 
   (* the Lua value a literal rendering of the value evaluates to (param / namelist / assign / data
